@@ -1581,7 +1581,7 @@ class SETRF(AbstractOperation):
     P = (REGISTER, I16_OR_LABEL)
 
     def convert(self):
-        return SET(*self.args).convert() + FLAGS(self.tokens[0]).convert()
+        return SET(*self.tokens).convert() + FLAGS(self.tokens[0]).convert()
 
 
 class FLAGS(AbstractOperation):
